@@ -698,6 +698,21 @@ def mrunP (head : Nat) : Links → List MOp → Links
   | m, [] => m
   | m, op :: ops => mrunP head (mstepP m head op).1 ops
 
+/-! ### a default-constructed `igris::pool` (`pool() = default`, never `init`-ed)
+
+The member initialisers give `head = POOL_HEAD_INIT(head)` (empty list),
+`_zone = nullptr`, `_size = _elemsz = 0`, `_count = 0`.  After
+`fix: igris::pool::size() of a pool without a zone is 0` the routine reads
+`return _elemsz ? _size / _elemsz : 0;` — which is what `IPool.cells` computes
+(`x / 0 = 0` on `Nat`).  The routine as it was divided by `_elemsz`
+unconditionally: a trap (SIGFPE) in `size()`, hence in `cell_is_allocated()`,
+`begin()` and `++it`. -/
+
+def IPool.default : IPool := ⟨Pool.init, 0, 0, 0⟩
+
+/-- `size()` as it was before the fix: `none` = division by zero (trap) -/
+def IPool.cellsOrig (p : IPool) : Option Nat := if p.elemsz = 0 then none else some (p.size / p.elemsz)
+
 /-! ### static_object_pool with its construction / destruction ledger and
 zones added through `freelist()` -/
 
